@@ -138,6 +138,7 @@ type outcome struct {
 
 type tables struct {
 	db    *tbl.SafeStore
+	rd    objects.Store // the store the merge reads through (nil: db); fault injection wraps it
 	baseT *objects.Table
 	baseS []byte
 	othT  []*objects.Table
@@ -185,15 +186,19 @@ func build(sc *Scenario) (*tables, error) {
 }
 
 func newMerger(t *tables) (*merge.Merger, func(), error) {
-	buf, err := diff.BlockBufferWithSingleStore(t.db, append([]*objects.Table{t.baseT}, t.othT...))
+	var db objects.Store = t.db
+	if t.rd != nil {
+		db = t.rd
+	}
+	buf, err := diff.BlockBufferWithSingleStore(db, append([]*objects.Table{t.baseT}, t.othT...))
 	if err != nil {
 		return nil, nil, err
 	}
-	collector, cleanup, err := merge.CreateRowCollector(t.db, t.baseT)
+	collector, cleanup, err := merge.CreateRowCollector(db, t.baseT)
 	if err != nil {
 		return nil, nil, err
 	}
-	m, err := merge.NewMerger(t.db, collector, buf, 0, t.baseT, t.othT, t.baseS, t.othS, logr.Discard())
+	m, err := merge.NewMerger(db, collector, buf, 0, t.baseT, t.othT, t.baseS, t.othS, logr.Discard())
 	if err != nil {
 		cleanup()
 		return nil, nil, err
